@@ -39,7 +39,7 @@ func runC18(c *an.Ctx) {
 	c.Floor("C18-R2", 6)
 	c.Floor("C18-R3", 2)
 	c.Floor("C18-R4", 3)
-	c.Floor("C18-R5", 3)
+	c.Floor("C18-R5", 5)
 
 	// ---- R1
 	num := func(a an.AV) int64 { return an.Env{"x": a}.I("x") }
@@ -344,6 +344,27 @@ func runC18(c *an.Ctx) {
 			"the worker releases the pipeline semaphore exactly once, deferred at its start",
 			fmt.Sprintf("the worker must release the pipeline semaphore exactly once in a defer at its start (found %d releases, %d deferred)", rel, deferred))
 	}
+	// ---- R5b': nobody else acquires or releases a pipeline semaphore
+	for _, fn := range c.AllFns {
+		if c.IsTestFile(fn.Pos()) || !strings.HasPrefix(an.FnKey(fn), "dnsserver.") {
+			continue
+		}
+		for _, call := range an.Calls(fn) {
+			cc := call.Common()
+			if !cc.IsInvoke() || an.TypeName(cc.Value.Type()) != "github.com/AdguardTeam/golibs/syncutil.Semaphore" {
+				continue
+			}
+			key := an.FnKey(fn) + " " + cc.Method.Name()
+			switch {
+			case cc.Method.Name() == "Release" && an.FnKey(fn) == "dnsserver.(*ServerDNS).acceptTCPMsg$1",
+				cc.Method.Name() == "Acquire" && an.FnKey(fn) == "dnsserver.(*ServerDNS).acceptTCPMsg":
+				c.Ok("C18-R5", key, call.Pos(), "the pipeline semaphore is acquired by acceptTCPMsg and released by its worker only")
+			default:
+				c.Bad("C18-R5", key, call.Pos(), "the pipeline semaphore is %sd outside acceptTCPMsg and its worker: a slot is taken or freed twice for one query", strings.ToLower(cc.Method.Name()))
+			}
+		}
+	}
+
 	// ---- R5c serveTCPConn sizes and passes the semaphore
 	decide(c, "C18-R5", "dnsserver.(*ServerDNS).serveTCPConn", an.DecideCfg{
 		Dom:    an.Domain{"p0.conf.MaxPipelineEnabled": an.Bools},
